@@ -306,6 +306,20 @@ class Source:
         item._log('R6', 'block slice at /%s/ (line %d), wrapped as `%s`' % (open_re[:40], self._line_of(o), ' '.join(header.split())[:80]))
         return item
 
+    def inline_block(self, line_re, header, name):
+        """R6 (inline form): a block written on one line, e.g. the action of a PEG alternative `pattern {? EXPR } /`.  line_re must
+        match exactly one line and its group 1 is the block's text, which becomes the body of `header { <text> }`."""
+        ms = list(re.compile(line_re, re.M).finditer(self.text))
+        if len(ms) != 1:
+            raise ExtractError('slice anchor %s: %s /%s/ (%d matches)' % ('lost' if not ms else 'ambiguous', self.rel, line_re, len(ms)))
+        m = ms[0]
+        seg = m.group(1).strip()
+        item = Item(name, self.rel, self._line_of(m.start(1)), header + ' {\n    ' + seg + '\n}')
+        item.orig = seg
+        item.sha256 = hashlib.sha256(seg.encode()).hexdigest()
+        item._log('R6', 'inline block at /%s/ (line %d), wrapped as `%s`' % (line_re[:40], self._line_of(m.start(1)), ' '.join(header.split())[:80]))
+        return item
+
     def has(self, regex):
         return re.compile(regex, re.M | re.S).search(self.text) is not None
 
